@@ -57,6 +57,9 @@ def scenarios():
         ("add-new", b[:6], c_add([b"."])),
         ("add-modified", b + [Edit("write", b"a.txt", b"changed")], c_add([b"a.txt"])),
         ("add-deleted", b + [Edit("delete", b"a.txt")], c_add([b"a.txt"])),
+        ("add-unchanged-tree", b, c_add([b"."])),
+        ("add-unchanged-file", two, c_add([b"a.txt"])),
+        ("add-mixed", two + [Edit("write", b"d/x", b"x2"), Edit("write", b"new", b"n")], c_add([b"."])),
         ("rm-file", b, c_rm([b"a.txt"])),
         ("rm-dir", b, c_rm([b"d"])),
         ("commit-first", b[:7], c_commit(b"first")),
@@ -130,9 +133,17 @@ def hxs(s):
     return b.hex() if b else "-"
 
 
+def _is_tmp(cls, rel):
+    """the temporary file of an atomic replacement (written beside the repository files, then renamed)"""
+    return rel.endswith(".tmp") and cls in ("meta", "gconfig")
+
+
 def impl_effects(ops, sb_root):
     """coalesce the implementation's modifying operations into the model's effect vocabulary"""
-    out, pending = [], None
+    out = []
+    tokens = lambda cls, rel: {"HEAD": "head", "index": "index", "config": "lcfg", "gconfig": "gcfg", "hlog": "hlog",
+                               "ref": "ref " + hxs(rel), "object": "obj " + rel, "blog": "blog " + hxs(rel),
+                               "wt": "write " + hxs(rel)}.get(cls, "? " + cls)
     for o in ops:
         if not o["mod"] or o["tag"] != "MOD":
             continue
@@ -141,17 +152,20 @@ def impl_effects(ops, sb_root):
         if what in ("mkdir", "mkdirall"):
             continue
         if what in ("create", "openfile"):
-            tok = {"HEAD": "head", "index": "index", "config": "lcfg", "gconfig": "gcfg", "hlog": "hlog",
-                   "ref": "ref " + hxs(rel), "object": "obj " + rel, "blog": "blog " + hxs(rel),
-                   "wt": "write " + hxs(rel)}.get(cls, "? " + cls)
-            out.append(tok)
-            pending = args[0]
+            if _is_tmp(cls, rel):
+                continue                      # becomes an effect when it is renamed into place
+            out.append(tokens(cls, rel))
         elif what == "write":
             continue
         elif what == "remove":
+            if _is_tmp(cls, rel):
+                continue
             out.append({"ref": "delref " + hxs(rel), "blog": "delblog " + hxs(rel), "wt": "remove " + hxs(rel)}.get(cls, "? rm " + cls))
         elif what == "rename":
-            out.append("renameref")
+            if _is_tmp(cls, rel) and len(args) > 1:
+                out.append(tokens(*classify_path(args[1], sb_root)))
+            else:
+                out.append("renameref")
     return out
 
 
@@ -198,7 +212,9 @@ def window(ops_done, next_op, sb_root):
     return None
 
 
-KNOWN_SITES = {"HEAD": "HEAD", "ref": "ref", "index": "index", "object": "object", "config": "config", "gconfig": "config"}
+# Call sites of recorded findings.  The truncate-then-write windows of HEAD, branch files, the index, object
+# files and the config files were repaired (temporary file + rename), so a window there is a violation again.
+KNOWN_SITES = {}
 
 
 def reach_fsck(s):
@@ -372,6 +388,29 @@ def run_scenario(shim, sbase, name, setup, target, mode, stats, rng, model_ok, t
                 for p in probs[:2]:
                     viol.append({"seed": None, "steps": setup + [target], "i": len(setup), "shrinkable": False,
                                  "msg": "%s: %s" % (label, p), "step_name": target.name, "extra": extra})
+                # ---- the history goes on: the same command again, now without a failure, then a commit.
+                # Whatever the failed run left behind (a partial object file, say) must not be taken for good
+                # data by the commands that follow: the repository stays connected and no branch advances to a
+                # commit whose snapshot or blobs are damaged.
+                if not probs and res.cls == "err":
+                    r2 = sb.run(target.argv)
+                    r3 = sb.run(["commit", "-m", "after the failure"])
+                    s3 = Snap(sb)
+                    later = []
+                    for rr, what in ((r2, target.argv[0].decode() if isinstance(target.argv[0], bytes) else target.argv[0]), (r3, "commit")):
+                        if rr.cls in ("panic", "timeout"):
+                            later.append("%s %s: %r" % (what, rr.cls, rr.err[:120]))
+                    later += reach_fsck(s3)
+                    if later:
+                        ex2 = dict(extra)
+                        if name == "init":
+                            ex2["site"] = "init"
+                        elif target.name == "branch-rename":
+                            ex2["site"] = "rename"
+                        for p in later[:2]:
+                            viol.append({"seed": None, "steps": setup + [target], "i": len(setup), "shrinkable": False,
+                                         "msg": "%s, then the same command and a commit without failure: %s" % (label, p),
+                                         "step_name": target.name, "extra": ex2})
     finally:
         if saved:
             saved.close()
